@@ -1,4 +1,5 @@
 import Proofs.HslBasics
+import Proofs.F32Sign
 import Model.Types
 /-! C17 — HSL conversion (hexcone model). Proved here over the reals for every finite linear-RGB pixel of [0,1]^3:
 `lightness`: L lies in [0,1] EXACTLY (monotonicity of rounding) and is within 1.3e-7 of (max+min)/2.
@@ -221,5 +222,186 @@ theorem black_white (p : Mat32.V3) (wh : WF p.x) (ws : WF p.y) (wl : WF p.z) (fh
   obtain ⟨r, g, b, zr, zg, zb, ho⟩ := hout
   rw [ho]
   exact ⟨key r zr, key g zg, key b zb⟩
+
+/-- well-formed bit patterns (below 2^32), as every `f32` is -/
+structure Wf3 (p : Mat32.V3) : Prop where
+  wx : WF p.x
+  wy : WF p.y
+  wz : WF p.z
+
+theorem max_wf (a b : Nat) (ha : WF a) (hb : WF b) : WF (F32.max a b) := by unfold F32.max; split_ifs <;> assumption
+theorem min_wf (a b : Nat) (ha : WF a) (hb : WF b) : WF (F32.min a b) := by unfold F32.min; split_ifs <;> assumption
+
+/-- twice a finite value of magnitude at most 1 is representable -/
+theorem double_rep (a : Nat) (ha : Finite a) (hb : |toReal a| ≤ 1) : ∃ r, F32.Finite r ∧ toReal r = 2 * toReal a := by
+  obtain ⟨n, m, e, h⟩ := ha
+  have hm := decode_mant_lt a n m e h
+  have he : -149 ≤ e := by
+    unfold decode at h
+    simp only [consts.2.2.1, consts.2.2.2.2.2.1, consts.2.2.2.1] at h
+    split at h
+    · split at h <;> cases h
+    · split at h
+      · injection h with _ _ he; omega
+      · injection h with _ _ he; omega
+  rw [toReal_of_decode _ _ _ _ h, abs_valR] at hb
+  have hfit : (m:ℝ) * (2:ℝ) ^ (e + 1) < (2:ℝ) ^ (127:ℤ) := by
+    rw [zpow_add_one₀ (by norm_num : (2:ℝ) ≠ 0), ← mul_assoc]
+    exact fit_small _ (by linarith)
+  obtain ⟨m', e', hd, hv⟩ := roundPack_exact n m (e + 1) hm (by omega) hfit
+  refine ⟨roundPack n m (e + 1), ⟨_, _, _, hd⟩, ?_⟩
+  rw [toReal_of_decode _ _ _ _ hd, toReal_of_decode _ _ _ _ h]
+  unfold valR; rw [hv, zpow_add_one₀ (by norm_num : (2:ℝ) ≠ 0)]; ring
+
+/-- L never exceeds the maximum component (monotonicity of the two roundings) -/
+theorem l_le_max (p : Mat32.V3) (hp : Unit3 p) :
+    toReal (lrgbToHsl p).z ≤ toReal (F32.max (F32.max p.x p.y) p.z) := by
+  obtain ⟨fM, fm, vM, vm⟩ := maxmin p hp
+  obtain ⟨b0, b1, b2⟩ := mx_mn_bounds _ _ _ hp.bx hp.bY hp.bz
+  set xmax := F32.max (F32.max p.x p.y) p.z
+  set xmin := F32.min (F32.min p.x p.y) p.z
+  have hz : (lrgbToHsl p).z = div (add xmax xmin) 0x40000000 := rfl
+  rw [hz]
+  have hMx1 : |toReal xmax| ≤ 1 := by rw [vM, abs_le]; constructor <;> linarith
+  obtain ⟨r, fr, vr⟩ := double_rep xmax fM hMx1
+  have hsum : |toReal xmax + toReal xmin| ≤ 2 := by rw [vM, vm, abs_le]; constructor <;> linarith
+  have hS : toReal (add xmax xmin) ≤ 2 * toReal xmax :=
+    by have := add_le xmax xmin r fM fm fr (fit1 _ (by linarith)) (by rw [vr]; exact fit1 _ (by rw [abs_mul]; norm_num; linarith)) (by rw [vr, vM, vm]; linarith)
+       rw [vr] at this; exact this
+  obtain ⟨fs, _⟩ := add_val xmax xmin fM fm (fit1 _ (by linarith))
+  have hS0 : 0 ≤ toReal (add xmax xmin) := by
+    have := add_ge xmax xmin 0 fM fm c_zero.1 (fit1 _ (by linarith)) (by rw [c_zero.2]; simp) (by rw [c_zero.2, vM, vm]; linarith)
+    rw [c_zero.2] at this; exact this
+  obtain ⟨n, m, e, hv, hf⟩ := div_two_form (add xmax xmin) fs
+  rw [hf]
+  have hmag : (m:ℝ) * (2:ℝ) ^ e < (2:ℝ) ^ (127:ℤ) := by
+    rw [← abs_valR n m e, hv]; exact fit1 _ (by rw [abs_le]; constructor <;> linarith [abs_le.mp hMx1])
+  exact (round_le n m e xmax fM hmag (fit1 _ (by linarith)) (by rw [hv]; linarith)).2
+
+theorem rep_lo : Finite 0xbf7ffffc ∧ toReal 0xbf7ffffc = -(1 - 1 / 4194304) := by
+  have h : decode 0xbf7ffffc = .fin true 16777212 (-24) := by decide +kernel
+  refine ⟨⟨_, _, _, h⟩, ?_⟩
+  rw [toReal_of_decode _ _ _ _ h]; unfold valR
+  have : (2:ℝ) ^ (-24:ℤ) = 1 / 16777216 := by rw [zpow_neg, one_div]; norm_num
+  rw [this]; norm_num
+theorem rep_hi : Finite 0x3f7ffffe ∧ toReal 0x3f7ffffe = 1 - 1 / 8388608 := by
+  have h : decode 0x3f7ffffe = .fin false 16777214 (-24) := by decide +kernel
+  refine ⟨⟨_, _, _, h⟩, ?_⟩
+  rw [toReal_of_decode _ _ _ _ h]; unfold valR
+  have : (2:ℝ) ^ (-24:ℤ) = 1 / 16777216 := by rw [zpow_neg, one_div]; norm_num
+  rw [this]; norm_num
+
+set_option maxHeartbeats 2000000 in
+/-- **saturation range**: S is finite and lies in [0,1] exactly -/
+theorem saturation_range (p : Mat32.V3) (hp : Unit3 p) (hw : Wf3 p) :
+    Finite (lrgbToHsl p).y ∧ 0 ≤ toReal (lrgbToHsl p).y ∧ toReal (lrgbToHsl p).y ≤ 1 := by
+  obtain ⟨fL, L0, L1, _⟩ := lightness p hp
+  have hLM := l_le_max p hp
+  obtain ⟨fM, fm, vM, vm⟩ := maxmin p hp
+  obtain ⟨b0, b1, b2⟩ := mx_mn_bounds _ _ _ hp.bx hp.bY hp.bz
+  set xmax := F32.max (F32.max p.x p.y) p.z
+  set xmin := F32.min (F32.min p.x p.y) p.z
+  have hlz : (lrgbToHsl p).z = div (add xmax xmin) 0x40000000 := rfl
+  rw [hlz] at fL L0 L1 hLM
+  set l := div (add xmax xmin) 0x40000000 with hl
+  have wl : WF l := div_wf _ _
+  have hs : (lrgbToHsl p).y = (if (F32.lt (F32.abs l) EPSILON || F32.lt (F32.abs (F32.sub l 0x3f800000)) EPSILON) then 0
+      else F32.min (F32.div (F32.mul 0x40000000 (F32.sub xmax l)) (F32.sub 0x3f800000 (F32.abs (F32.fma 0x40000000 l (F32.neg 0x3f800000))))) 0x3f800000) := rfl
+  rw [hs]
+  have f0 := c_zero; have f1 := c_one; have f2 := c_two; have fe := c_eps; have fn1 := neg_one
+  have hE : EPSILON = 0x34000000 := rfl
+  split
+  · exact ⟨f0.1, by rw [f0.2], by rw [f0.2]; norm_num⟩
+  · rename_i hg
+    simp only [Bool.or_eq_true, not_or, Bool.not_eq_true] at hg
+    obtain ⟨g1, g2⟩ := hg
+    rw [hE] at g1 g2
+    -- L ≥ EPS
+    obtain ⟨fal, val⟩ := toReal_abs l wl fL
+    have hLlo : 1 / 8388608 ≤ toReal l := by
+      have : ¬ (toReal (F32.abs l) < toReal (0x34000000 : Nat)) := fun h => by
+        have h2 := (lt_iff _ _ fal fe.1).mpr h; rw [g1] at h2; exact Bool.false_ne_true h2
+      rw [val, fe.2, abs_of_nonneg L0] at this; linarith
+    -- 1 - L ≥ 2^-24
+    have w1 : WF (0x3f800000 : Nat) := by unfold WF; norm_num
+    obtain ⟨fs1, es1⟩ := sub_val l 0x3f800000 w1 fL f1.1 (fit1 _ (by rw [f1.2, abs_le]; constructor <;> linarith))
+    obtain ⟨fas1, vas1⟩ := toReal_abs (F32.sub l 0x3f800000) (add_wf _ _) fs1
+    have hLhi : toReal l ≤ 1 - 1 / 16777216 := by
+      have hge : ¬ (toReal (F32.abs (F32.sub l 0x3f800000)) < toReal (0x34000000 : Nat)) := fun h => by
+        have h2 := (lt_iff _ _ fas1 fe.1).mpr h; rw [g2] at h2; exact Bool.false_ne_true h2
+      rw [vas1, fe.2] at hge
+      push Not at hge
+      rw [f1.2] at es1
+      have hu := u_val; have he := eta_le
+      have h1 : |toReal l - 1| ≤ 1 := by rw [abs_le]; constructor <;> linarith
+      have h2 : u * |toReal l - 1| ≤ u * 1 := mul_le_mul_of_nonneg_left h1 u_pos.le
+      rw [hu] at h2 es1
+      have h3 := abs_sub_abs_le_abs_sub (toReal (F32.sub l 0x3f800000)) (toReal l - 1)
+      have h4 : |toReal l - 1| = 1 - toReal l := by rw [abs_of_nonpos (by linarith)]; ring
+      rw [h4] at h3 h2 es1
+      by_contra hc; push Not at hc
+      -- then 1 - L < 2^-24 and |fl| ≤ (1-L)(1+u) + eta < 2^-23
+      nlinarith
+    -- t = fma 2 l (-1) in [-(1-2^-22), 1-2^-23]
+    have hfitt : |toReal (0x40000000 : Nat) * toReal l + toReal (F32.neg 0x3f800000)| < (2:ℝ) ^ (127:ℤ) :=
+      fit1 _ (by rw [f2.2, fn1.2, abs_le]; constructor <;> linarith)
+    obtain ⟨ft, _⟩ := fma_val 0x40000000 l (F32.neg 0x3f800000) f2.1 fL fn1.1 hfitt
+    have tlo := fma_ge 0x40000000 l (F32.neg 0x3f800000) 0xbf7ffffc f2.1 fL fn1.1 rep_lo.1 hfitt (fit1 _ (by rw [rep_lo.2]; norm_num))
+      (by rw [rep_lo.2, f2.2, fn1.2]; linarith)
+    have thi := fma_le 0x40000000 l (F32.neg 0x3f800000) 0x3f7ffffe f2.1 fL fn1.1 rep_hi.1 hfitt (fit1 _ (by rw [rep_hi.2]; norm_num))
+      (by rw [rep_hi.2, f2.2, fn1.2]; linarith)
+    rw [rep_lo.2] at tlo; rw [rep_hi.2] at thi
+    set t := F32.fma 0x40000000 l (F32.neg 0x3f800000)
+    obtain ⟨fat, vat⟩ := toReal_abs t (fma_wf _ _ _) ft
+    have hat : |toReal t| ≤ 1 - 1 / 8388608 := by rw [abs_le]; constructor <;> linarith
+    -- den = 1 - |t| ≥ 2^-23
+    have wat : WF (F32.abs t) := abs_wf _ (fma_wf _ _ _)
+    have hfitd : |toReal (0x3f800000 : Nat) - toReal (F32.abs t)| < (2:ℝ) ^ (127:ℤ) :=
+      fit1 _ (by rw [f1.2, vat, abs_le]; constructor <;> linarith [abs_nonneg (toReal t)])
+    obtain ⟨fden, eden⟩ := sub_val 0x3f800000 (F32.abs t) wat f1.1 fat hfitd
+    have dlo := sub_ge 0x3f800000 (F32.abs t) 0x34000000 wat f1.1 fat fe.1 hfitd (fit1 _ (by rw [fe.2]; norm_num)) (by rw [fe.2, f1.2, vat]; linarith)
+    rw [fe.2] at dlo
+    set den := F32.sub 0x3f800000 (F32.abs t)
+    have dhi : toReal den ≤ 2 := by
+      rw [f1.2, vat] at eden
+      have hu := u_val; have he := eta_le
+      have h1 : abs (1 - |toReal t|) ≤ 1 := by rw [abs_le]; constructor <;> linarith [abs_nonneg (toReal t)]
+      have h2 : u * abs (1 - |toReal t|) ≤ u * 1 := mul_le_mul_of_nonneg_left h1 u_pos.le
+      rw [hu] at h2 eden
+      have := abs_sub_abs_le_abs_sub (toReal den) (1 - |toReal t|)
+      have := le_abs_self (toReal den)
+      linarith
+    -- num = 2 (v - l) ≥ 0
+    have hMx1 : toReal xmax ≤ 1 := by rw [vM]; exact b2
+    have hMx0 : 0 ≤ toReal xmax := by rw [vM]; linarith
+    have hfitn : |toReal xmax - toReal l| < (2:ℝ) ^ (127:ℤ) := fit1 _ (by rw [abs_le]; constructor <;> linarith)
+    obtain ⟨fvl, evl⟩ := sub_val xmax l wl fM fL hfitn
+    have vl0 := sub_ge xmax l 0 wl fM fL f0.1 hfitn (by rw [f0.2]; simp) (by rw [f0.2]; linarith)
+    rw [f0.2] at vl0
+    have vl1 := sub_le xmax l 0x3f800000 wl fM fL f1.1 hfitn (fit1 _ (by rw [f1.2]; norm_num)) (by rw [f1.2]; linarith)
+    rw [f1.2] at vl1
+    set vl := F32.sub xmax l
+    have hfitm : |toReal (0x40000000 : Nat) * toReal vl| < (2:ℝ) ^ (127:ℤ) := fit1 _ (by rw [f2.2, abs_le]; constructor <;> linarith)
+    have fnum : Finite (F32.mul 0x40000000 vl) := (mul_bnd 0x40000000 vl 2 1 ⟨f2.1, by rw [f2.2]; norm_num⟩ ⟨fvl, by rw [abs_le]; constructor <;> linarith⟩ (fit_small _ (by norm_num))).1.1
+    have n0 := mul_ge 0x40000000 vl 0 f2.1 fvl f0.1 hfitm (by rw [f0.2]; simp) (by rw [f0.2, f2.2]; linarith)
+    rw [f0.2] at n0
+    have n1 := mul_le 0x40000000 vl 0x40000000 f2.1 fvl f2.1 hfitm (fit1 _ (by rw [f2.2]; norm_num)) (by rw [f2.2]; linarith)
+    rw [f2.2] at n1
+    set num := F32.mul 0x40000000 vl
+    -- quotient
+    have hdpos : 0 < toReal den := by linarith
+    have hq : |toReal num / toReal den| ≤ (2:ℝ) ^ (126:ℤ) := by
+      rw [abs_div, abs_of_nonneg n0, abs_of_pos hdpos, div_le_iff₀ hdpos]
+      have h1 : (2:ℝ) ^ (25:ℤ) ≤ (2:ℝ) ^ (126:ℤ) := zpow_le_zpow_right₀ (by norm_num) (by norm_num)
+      have h2 : (2:ℝ) ^ (25:ℤ) = 33554432 := by norm_num
+      have hp : (0:ℝ) < (2:ℝ) ^ (126:ℤ) := by positivity
+      nlinarith
+    obtain ⟨fq, _⟩ := div_val num den fnum fden hdpos.ne' hq
+    have q0 := div_nonneg_val num den fnum fden n0 hdpos hq
+    -- min with 1
+    obtain ⟨om, vmn⟩ := min_val (F32.div num den) 0x3f800000 fq f1.1
+    refine ⟨by rcases om with h | h <;> rw [h] <;> [exact fq; exact f1.1], ?_, ?_⟩
+    · rw [vmn, f1.2]; exact le_min q0 (by norm_num)
+    · rw [vmn, f1.2]; exact min_le_right _ _
 
 end C17
